@@ -180,100 +180,100 @@ package smtp
 // reply form one critical section, and every function returns with the lock released.
 //@ func smtp.Client.cmd
 //@   requires[C13:free] c != nil && !mw(c)
-//@   restores[C13:balanced] wheld, rheld
+//@   restores[C13,C17:balanced] wheld, rheld
 //@ at smtp.Client.cmd textproto.Conn.Cmd#1 before assert[C13:locked-write] mw(c)
 //@ at smtp.Client.cmd textproto.Reader.ReadResponse#1 before assert[C13:locked-read] mw(c)
 //@ at smtp.Client.cmd textproto.Pipeline.EndResponse#1 before assert[C13:locked-end] mw(c)
 //@ func smtp.Client.Close
 //@   requires[C13:free] c != nil && !mw(c)
-//@   restores[C13:balanced] wheld, rheld
+//@   restores[C13,C17:balanced] wheld, rheld
 //@ at smtp.Client.Close textproto.Conn.Close#1 before assert[C13:locked] mw(c)
 //@ func smtp.Client.Quit
 //@   requires[C13:free] c != nil && !mw(c)
-//@   restores[C13:balanced] wheld, rheld
+//@   restores[C13,C17:balanced] wheld, rheld
 //@ at smtp.Client.Quit textproto.Conn.Close#1 before assert[C13:locked] mw(c)
 //@ func smtp.Client.StartTLS
 //@   requires[C13:free] c != nil && !mw(c)
-//@   restores[C13:balanced] wheld, rheld
+//@   restores[C13,C17:balanced] wheld, rheld
 //@ at smtp.Client.StartTLS tls.Client#1 before assert[C13:locked] mw(c)
 //@ at smtp.Client.StartTLS textproto.NewConn#1 before assert[C13:locked] mw(c)
 //@ func smtp.Client.Data
 //@   requires[C13:free] c != nil && !mw(c)
-//@   restores[C13:balanced] wheld, rheld
+//@   restores[C13,C17:balanced] wheld, rheld
 //@ at smtp.Client.Data textproto.Writer.DotWriter#1 before assert[C13:locked] mw(c)
 //@ func smtp.dataCloser.Write
 //@   requires[C13:free] d != nil && d.c != nil && !mw(d.c)
-//@   restores[C13:balanced] wheld, rheld
+//@   restores[C13,C17:balanced] wheld, rheld
 //@ at smtp.dataCloser.Write io.Writer.Write#1 before assert[C13:locked] mw(d.c)
 //@ func smtp.dataCloser.Close
 //@   requires[C13:free] d != nil && d.c != nil && !mw(d.c)
-//@   restores[C13:balanced] wheld, rheld
+//@   restores[C13,C17:balanced] wheld, rheld
 //@ at smtp.dataCloser.Close io.Closer.Close#1 before assert[C13:locked] mw(d.c)
 //@ at smtp.dataCloser.Close textproto.Reader.ReadResponse#1 before assert[C13:locked] mw(d.c)
 //@ func smtp.Client.UpdateDeadline
 //@   requires[C13:free] c != nil && !mw(c)
-//@   restores[C13:balanced] wheld, rheld
+//@   restores[C13,C17:balanced] wheld, rheld
 //@ at smtp.Client.UpdateDeadline net.Conn.SetDeadline#1 before assert[C13:locked] mw(c)
 //@ func smtp.Client.hello
 //@   requires[C13:free] c != nil && !mw(c)
-//@   restores[C13:balanced] wheld, rheld
+//@   restores[C13,C17:balanced] wheld, rheld
 //@ func smtp.Client.ehlo
 //@   requires[C13:free] c != nil && !mw(c)
-//@   restores[C13:balanced] wheld, rheld
+//@   restores[C13,C17:balanced] wheld, rheld
 //@ func smtp.Client.helo
 //@   requires[C13:free] c != nil && !mw(c)
-//@   restores[C13:balanced] wheld, rheld
+//@   restores[C13,C17:balanced] wheld, rheld
 //@ func smtp.Client.Hello
 //@   requires[C13:free] c != nil && !mw(c)
-//@   restores[C13:balanced] wheld, rheld
+//@   restores[C13,C17:balanced] wheld, rheld
 //@ func smtp.Client.Mail
 //@   requires[C13:free] c != nil && !mw(c)
-//@   restores[C13:balanced] wheld, rheld
+//@   restores[C13,C17:balanced] wheld, rheld
 //@ func smtp.Client.Rcpt
 //@   requires[C13:free] c != nil && !mw(c)
-//@   restores[C13:balanced] wheld, rheld
+//@   restores[C13,C17:balanced] wheld, rheld
 //@ func smtp.Client.Reset
 //@   requires[C13:free] c != nil && !mw(c)
-//@   restores[C13:balanced] wheld, rheld
+//@   restores[C13,C17:balanced] wheld, rheld
 //@ func smtp.Client.Noop
 //@   requires[C13:free] c != nil && !mw(c)
-//@   restores[C13:balanced] wheld, rheld
+//@   restores[C13,C17:balanced] wheld, rheld
 //@ func smtp.Client.Extension
 //@   requires[C13:free] c != nil && !mw(c)
-//@   restores[C13:balanced] wheld, rheld
+//@   restores[C13,C17:balanced] wheld, rheld
 //@ func smtp.Client.Auth
 //@   requires[C13:free] c != nil && !mw(c)
-//@   restores[C13:balanced] wheld, rheld
+//@   restores[C13,C17:balanced] wheld, rheld
 //@   loop 1 invariant[C13:free] !mw(c)
 //@ func smtp.Client.Auth$1
 //@   requires[C13:free] !mw(c)
-//@   restores[C13:balanced] wheld, rheld
+//@   restores[C13,C17:balanced] wheld, rheld
 //@ func smtp.Client.HasConnection
 //@   requires[C13:free] c != nil && !mw(c)
-//@   restores[C13:balanced] wheld, rheld
+//@   restores[C13,C17:balanced] wheld, rheld
 //@ func smtp.Client.SetDSNMailReturnOption
 //@   requires[C13:free] c != nil && !mw(c)
-//@   restores[C13:balanced] wheld, rheld
+//@   restores[C13,C17:balanced] wheld, rheld
 //@ func smtp.Client.SetDSNRcptNotifyOption
 //@   requires[C13:free] c != nil && !mw(c)
-//@   restores[C13:balanced] wheld, rheld
+//@   restores[C13,C17:balanced] wheld, rheld
 //@ func smtp.NewClient (conn, host) (c, err)
 //@   ensures[C13:free] err == nil ==> !mw(c)
 //@ func smtp.Client.SetLogger
 //@   requires[C13:free] c != nil && !mw(c)
-//@   restores[C13:balanced] wheld, rheld
+//@   restores[C13,C17:balanced] wheld, rheld
 //@ func smtp.Client.SetLogAuthData
 //@   requires[C13:free] c != nil && !mw(c)
-//@   restores[C13:balanced] wheld, rheld
+//@   restores[C13,C17:balanced] wheld, rheld
 //@ func smtp.Client.GetTLSConnectionState
 //@   requires[C13:free] c != nil && !mw(c)
-//@   restores[C13:balanced] wheld, rheld
+//@   restores[C13,C17:balanced] wheld, rheld
 //@ func smtp.Client.TLSConnectionState
 //@   requires[C13:free] c != nil && !mw(c)
-//@   restores[C13:balanced] wheld, rheld
+//@   restores[C13,C17:balanced] wheld, rheld
 //@ func smtp.Client.Verify
 //@   requires[C13:free] c != nil && !mw(c)
-//@   restores[C13:balanced] wheld, rheld
+//@   restores[C13,C17:balanced] wheld, rheld
 
 // ---------------------------------------------------------------------------
 // C15  SCRAM authenticates the server (typestate of one exchange)
@@ -290,8 +290,12 @@ package smtp
 //@   ensures[C15:restart] !a.verified
 //@ func smtp.scramAuth.reset
 //@   requires[C15:wf] a != nil
+//@   ensures[C15:cleared] len(a.saltedPwd) == 0 && len(a.authMessage) == 0 && len(a.nonce) == 0 && a.iterations == 0
+// an exchange starts without the verification material of an earlier one: a server signature is only ever
+// compared with one computed from what the server said in this exchange
 //@ func smtp.scramAuth.initialClientMessage
 //@   requires[C15:wf] a != nil
+//@   requires[C15:fresh-exchange] len(a.saltedPwd) == 0 && len(a.authMessage) == 0 && a.iterations == 0
 //@   ensures[C15:restart] !a.verified
 //@   ensures[C15:nonempty] r1 == nil ==> len(r0) > 0
 //@ func smtp.scramAuth.handleServerFirstResponse (fromServer) (resp, err)
